@@ -140,7 +140,18 @@ def run(chk: Check):
         # the statement itself on the real code: when every restore comes right after a checkpoint of the current state (saving folder: after
         # every batch; explicit: a create_checkpoint() with no batch in between), the final history equals that of the same calls without any
         # checkpoint or restore
-        resumes_current = all(o[0] != "R" or scn.folder or (j > 0 and scn.ops[j - 1][0] == "K") for j, o in enumerate(scn.ops)) and any(o[0] == "R" for o in scn.ops)
+        synced, resumes_current = False, any(o[0] == "R" for o in scn.ops)
+        for o in scn.ops:
+            if o[0] == "K":
+                synced = True
+            elif o[0] == "C":
+                # a call that runs batches with a saving folder ends on a checkpoint of the state it leaves; a call that runs none writes
+                # nothing although it may have seeded the samplers (drawn from the calibrator's generator): not a checkpointed state
+                synced = bool(scn.folder) and o[1] >= 1
+            elif o[0] == "R":
+                resumes_current = resumes_current and synced
+            else:
+                synced = False
         if resumes_current and not lines[-1].startswith(("raise", "hang", "no-checkpoint")):
             plain = copy.deepcopy(scn); plain.ops = [o for o in scn.ops if o[0] == "C"]; plain.folder = False
             with warnings.catch_warnings():
